@@ -34,7 +34,7 @@ func genReplay(r *propRun, s *vc.ObSummary, rep map[string]any) {
 		if err != nil {
 			rep["replay_error"] = err.Error()
 		}
-		rep["reproduced"] = failed && err == nil
+		rep["reproduced"] = failed && err == nil && (strings.Contains(out, "REPRODUCED") || strings.Contains(out, "FOUND"))
 		return
 	}
 	if genModelReplay(r, s, rep) {
@@ -57,7 +57,7 @@ func genReplay(r *propRun, s *vc.ObSummary, rep map[string]any) {
 		if err != nil {
 			rep["replay_error"] = err.Error()
 		}
-		rep["reproduced"] = failed && err == nil
+		rep["reproduced"] = failed && err == nil && (strings.Contains(out, "REPRODUCED") || strings.Contains(out, "FOUND"))
 		return
 	}
 	rep["replay_note"] = "no replay available for this obligation: the verifier's output is attached"
